@@ -180,6 +180,29 @@ async def eval_real(expr, asg, fc=None, hint_keys=()):
             "hints": tuple(int(k) for k in re.findall(r"H(\d+)", r.hints or ""))}
 
 
+def tree_entry_point(expr, asg):
+    """evaluate_requirement_constraint_tree on hand-built condition nodes -> 'F'/'U'/'K'/'N' or an error name"""
+    import ahb
+    from ahbicht.expressions import InvalidExpressionError
+    from ahbicht.expressions.condition_expression_parser import parse_condition_expression_to_tree
+    from ahbicht.expressions.requirement_constraint_expression_evaluation import evaluate_requirement_constraint_tree
+    from ahbicht.models.condition_nodes import Hint, RequirementConstraint, UnevaluatedFormatConstraint
+    nodes = {}
+    for k, v in asg.items():
+        nodes[str(k)] = RequirementConstraint(condition_key=str(k), conditions_fulfilled=ahb.ST[v])
+    for k in HINT_KEYS_POOL:
+        nodes[str(k)] = Hint(condition_key=str(k), hint=ahb.hint_text(k))
+    for k in FC_KEYS_POOL:
+        nodes[str(k)] = UnevaluatedFormatConstraint(condition_key=str(k))
+    try:
+        r = evaluate_requirement_constraint_tree(parse_condition_expression_to_tree(expr), nodes)
+    except InvalidExpressionError:
+        return "invalid"
+    except NotImplementedError:
+        return "unsupported"
+    return ahb.ST_INV[r.conditions_fulfilled]
+
+
 async def fc_eval_real(expr, b):
     import ahb
     from ahbicht.expressions.format_constraint_expression_evaluation import format_constraint_evaluation
@@ -247,6 +270,11 @@ async def check_state(mode, state, idx, acc, sd):
         return
     top = state["stack"][0]
     if mode == "C04":
+        # the tree entry point: evaluate_requirement_constraint_tree(parsed tree, nodes) must give the spec's four-valued state
+        tv = tree_entry_point(expr, asg)
+        acc.count("tree_entry_point_evaluations")
+        if tv != top["st"]:
+            acc.v(f"evaluate_requirement_constraint_tree('{expr}') with {asg} has state {tv}, compositional semantics gives {top['st']}", dict(case, expected_state=top["st"]))
         exp = OUTCOME[top["st"]]
         if got["outcome"] != exp:
             acc.v(f"{expr} with {asg}: code reports (fulfilled, conditional)={got['outcome']}, compositional semantics "
